@@ -48,13 +48,17 @@ func (c *Ctx) Ordered(rule string, fn *ssa.Function, names []string, match []fun
 }
 
 func isCall(target string) func(Site) bool {
-	return func(s Site) bool { return (s.Kind == "call" || s.Kind == "go" || s.Kind == "defer") && s.Target == target }
+	return func(s Site) bool {
+		return (s.Kind == "call" || s.Kind == "go" || s.Kind == "defer") && s.Target == target
+	}
 }
 func isStore(target string) func(Site) bool {
 	return func(s Site) bool { return s.Kind == "store" && s.Target == target }
 }
 func isStoreVal(target, val string) func(Site) bool {
-	return func(s Site) bool { return s.Kind == "store" && s.Target == target && len(s.Args) == 2 && s.Args[1] == val }
+	return func(s Site) bool {
+		return s.Kind == "store" && s.Target == target && len(s.Args) == 2 && s.Args[1] == val
+	}
 }
 
 func propC04(c *Ctx) {
@@ -212,7 +216,6 @@ func propC04(c *Ctx) {
 	if k := pkgConst(c.P, "protocol/transport/tcp", "notifyNonZeroReceiveWindow"); k != nil {
 		c.Check(k.ExactString() == "1", n7, "const:tcp.notifyNonZeroReceiveWindow", "", "bit 1, the bit tested in the main loop", "notifyNonZeroReceiveWindow = "+k.ExactString()+" but the main loop tests bit 1")
 	}
-
 
 	n8 := c.Rule("N8", "K7 exact-guard site tables + K3 closed call sites", "window-scale negotiation: own scale used only if the peer offered one (any value, including 0)", 8)
 	if fn := c.Fn(n8, "(*tcp.handshake).effectiveRcvWndScale"); fn != nil {
